@@ -16,7 +16,10 @@ SPEC = {
                   "0 < s < n and p256.Swap is an involution on the DER encodings of such signatures; the alternate fingerprint of a certificate "
                   "is the fingerprint of its twin-signed form and vice versa, so either fingerprint on the blocklist fails both. "
                   "Tie: real v1/v2 leaves on both curves under real CAs, tampered (byte flip/set/insert/delete/truncate/extend/duplicate, tolerated and "
-                  "content-changing re-encodings with repaired lengths, twin and foreign signatures, foreign key and curve) in both encodings, "
+                  "content-changing re-encodings with repaired lengths, protobuf-structured tampering of v1 (a swept extra occurrence of the outer Details field "
+                  "setting each identity field alone and all together, in front / after / after the signature, in both encodings; extra scalar, repeated, "
+                  "Signature and unknown fields; the model mirrors proto.Unmarshal's merge, so such input decodes to the MERGED identity whose re-marshalled "
+                  "details are the signed bytes) and the DER analogues for v2 (second details / field / key / signature element, swapped elements), twin and foreign signatures, foreign key and curve) in both encodings, "
                   "through UnmarshalCertificateFromPEM / Recombine / CAPool.VerifyCertificate and VerifyCachedCertificate on three pools per tampered input: a fresh "
                   "pool, the leaf's ONE long-lived pool (which verified the genuine certificate first and every earlier tampered encoding), and the CA's shared "
                   "pool interleaved with other genuine leaves of that CA; verdicts must not depend on verification history (C02_history_independent, trivial in "
